@@ -324,6 +324,15 @@ func (tx *Tx) rollback() {
 	if tx.db == nil {
 		return
 	}
+	if tx.writable && tx.db.data != nil && tx.db.meta().Txid() == tx.meta.Txid() {
+		// The meta page of this transaction has been written (only its
+		// sync failed), so it is the committed state that every later
+		// transaction sees. Keep the freelist as a successful commit
+		// leaves it, so that the pages this transaction released stay
+		// pending for as long as older readers may still use them.
+		tx.close()
+		return
+	}
 	if tx.writable {
 		tx.db.freelist.Rollback(tx.meta.Txid())
 		// When mmap fails, the `data`, `dataref` and `datasz` may be reset to
